@@ -94,6 +94,8 @@ def pack_stages(prop, tier, seed):
         st = [pack_stage("safety", "safetyq" if q else "safety", "none", prop, seed, timeout=3000)]
         if prop == "C19":
             st.append(pack_stage("rulelines", "lines", "none", prop, seed))
+            st.append(dict(name="degenerate", module="MC_Unpack", cfg="MC_Unpack_q.cfg", family="unpack", judge=UNPACK_JUDGE, exhaustive=True,
+                           overrides={"MaxLen": "2", "Alphabet": "<- AlphaDegenerate"}, vh_args=["-props", prop, "-gamma", "0"]))
             st += [s2 for s2 in addr_stages("C07", tier, seed)]
             for s2 in st[1:]:
                 s2["vh_args"] = ["-props", "C19"]
@@ -156,12 +158,14 @@ def builder_stages(prop, tier, seed):
                                                   "Subs": "<- MCSubs1"})
     fan = builder_stage("fan", prop, seed, {"MaxEdges": "4", "MaxAdds": "1", "Adds": "<- MCAddsR", "RegPkgs": "{}"})
     coal = builder_stage("coalesce", prop, seed, {"Contents": "{1, 2}", "MetaFlags": "{TRUE, FALSE}", "MaxEdges": "1", "Adds": "<- MCAddsR"})
+    finders = builder_stage("finders", prop, seed, {"Finders": '{"F1", "F2"}', "LocalRels": "<- MCLocalRelsSelf", "MaxEdges": "2", "MaxAdds": "1",
+                                                     "Vers": "{1}", "AllowedSets": "<- MCAllowed1", "Adds": "<- MCAddsF", "MaxDeps": "2"})
     sched = builder_stage("sched", prop, seed, {"Callers": '{"c1", "c2"}', "MaxAdds": "1" if q else "2", "Adds": "<- MCAddsR", "RegPkgs": "{}",
                                                  "Concurrent": "TRUE", "MaxEdges": "2", "LocalRels": "<- MCLocalRels0"})
     if prop == "C14":
-        return [base, fan, sched] if q else [base, fan, sched, builder_stage("graph3", prop, seed, {"MaxEdges": "3", "Finders": '{"F1", "F2"}', "Adds": "<- MCAdds3", "Pkgs": '{"P1", "P2", "P3"}'}, sim={"num": 40000, "depth": 60}, workers=1)]
+        return [base, fan, sched, finders] if q else [base, fan, sched, finders, builder_stage("graph3", prop, seed, {"MaxEdges": "3", "Finders": '{"F1", "F2"}', "Adds": "<- MCAdds3", "Pkgs": '{"P1", "P2", "P3"}'}, sim={"num": 40000, "depth": 60}, workers=1)]
     if prop == "C08":
-        return [base, coal, fan] if q else [base, coal, fan, vers]
+        return [base, coal, fan, finders] if q else [base, coal, fan, finders, vers]
     if prop == "C17":
         return [vers]
     if prop == "C12":
@@ -399,6 +403,19 @@ def check(vc, prop, tier, seed, t0):
                         flags.append(dict(prop=prop, witness=vv.get(P["wkey"], []), kf=kf, case=dict(trace=r["tr"], where=src, seed=seed),
                                           stage=stage["name"], family="trace",
                                           reproduced_by="recorded trace of the real code; predicate evaluated by the trace spec on the recorded state"))
+                # a flagged trace carries its own events, so that the finding file can be replayed and read on its own
+                want = {f["case"]["trace"] for f in flags if f.get("family") == "trace" and "events" not in f["case"]}
+                if want:
+                    evs = {}
+                    for line in open(os.path.join(scratch, "trace.ndjson")):
+                        if len(evs) >= 40 and not any(('"tr":%d,' % t) in line[:60] for t in evs):
+                            continue
+                        o = json.loads(line)
+                        if o.get("tr") in want:
+                            evs.setdefault(o["tr"], []).append(o)
+                    for f in flags:
+                        if f.get("family") == "trace" and f["case"]["trace"] in evs:
+                            f["case"]["events"] = evs[f["case"]["trace"]]
                 stage_info.append(dict(stage=stage["name"], module=stage["trace_module"], recorded_traces=len(recs), events=stats.get("events"),
                                        accepted=acc, rejected=len(recs) - acc, tlc=stats))
                 samples.append(dict(trace_result=recs[0]) if recs else {})
